@@ -40,7 +40,8 @@ def scenario(draw, tier="quick", fault=False, cooldown=False):
     n_events = draw(st.integers(1, min(3, nm)))
     grid = draw(st.booleans())  # identical publish times across markets
     LKS = [{}, {}, {"inplay": True}, {"inplay": False}, {"seconds_to_start": 10}, {"max_inplay_seconds": 5},
-           {"inplay": True, "max_inplay_seconds": 3}, {"seconds_to_start": 20, "max_inplay_seconds": 10}]
+           {"inplay": True, "max_inplay_seconds": 3}, {"seconds_to_start": 20, "max_inplay_seconds": 10},
+           {"inplay": False, "seconds_to_start": 10}, {"inplay": False, "seconds_to_start": 20}]
     lk = draw(st.sampled_from(LKS))
     tx_hours = cooldown and draw(st.integers(0, 2)) == 0
     if tx_hours:
